@@ -58,6 +58,14 @@ type HostileCase struct {
 	// well-formed in-order one-byte data segments on it without regard for the
 	// advertised receive window (4096 fill the session's receive queue)
 	Flood int `json:"flood,omitempty"`
+	// CutLast > 0 (TCP, against the server): after the hostile segments one more
+	// well-formed data segment (40 bytes of padding, 100 of payload, 30 of
+	// padding) is sent only up to a cut - 1: inside the encrypted metadata,
+	// 2: right behind it, 3: inside padding 1, 4: inside the payload, 5: inside
+	// the payload's tag, 6: inside padding 2 - and the connection ends there
+	// (FIN, or reset when CutReset)
+	CutLast  int  `json:"cutLast,omitempty"`
+	CutReset bool `json:"cutReset,omitempty"`
 }
 
 var c10users = []e2e.UserSpec{{Name: "victim", Password: "victim-pw"}, {Name: "mallory", Password: "mallory-pw"}}
@@ -102,6 +110,18 @@ func genHostile(t *rapid.T) HostileCase {
 	n := rapid.IntRange(1, 30).Draw(t, "nSegs")
 	for i := 0; i < n; i++ {
 		c.Segs = append(c.Segs, genHSeg(t))
+	}
+	if !c.UDP && !c.AgainstClient && rapid.IntRange(0, 2).Draw(t, "cut") == 0 {
+		c.CutLast = rapid.IntRange(1, 6).Draw(t, "cutLast")
+		c.CutReset = rapid.Bool().Draw(t, "cutReset")
+		if rapid.Bool().Draw(t, "cutOpenFirst") {
+			c.OpenFirst = true
+		}
+		// most hostile sequences make the server drop the connection before the
+		// cut segment would be read: mostly send it alone
+		if k := rapid.SampledFrom([]int{0, 0, 0, 1, 2}).Draw(t, "cutAfter"); k < len(c.Segs) {
+			c.Segs = c.Segs[:k]
+		}
 	}
 	if c.UDP && !c.AgainstClient && rapid.IntRange(0, 7).Draw(t, "flood") == 0 {
 		c.OpenFirst = true
@@ -366,6 +386,30 @@ func propHostile(c HostileCase) (o pbt.Outcome) {
 				break // the server dropped the attacker's connection: fine
 			}
 		}
+		if c.CutLast > 0 {
+			payload := make([]byte, 100)
+			e2e.PRFFill(c.Salt^0xc07, 0, payload)
+			spec := refproto.SegSpec{Meta: refproto.Meta{Proto: 6, Timestamp: uint32(time.Now().Unix() / 60), SessionID: ownSid, Seq: 1, Window: 4096},
+				Payload: payload, Pad1: make([]byte, 40), Pad2: make([]byte, 30), FixLengths: true}
+			if b, err := enc.Encode(spec); err == nil {
+				hdr := len(b) - 40 - 116 - 30
+				cut := map[int]int{1: hdr - 20, 2: hdr, 3: hdr + 17, 4: hdr + 40 + 50, 5: hdr + 40 + 100 + 7, 6: hdr + 40 + 116 + 11}[c.CutLast]
+				if cut > 0 && cut < len(b) {
+					conn.SetWriteDeadline(time.Now().Add(2 * time.Second))
+					conn.Write(b[:cut])
+					time.Sleep(3 * time.Millisecond)
+					if c.CutReset {
+						if l := sn.Links(); len(l) > 0 {
+							l[len(l)-1].Reset()
+						}
+					} else {
+						conn.Close()
+					}
+					time.Sleep(20 * time.Millisecond)
+					o.Label("cutLast=%d", c.CutLast)
+				}
+			}
+		}
 	}
 	time.Sleep(5 * time.Millisecond)
 	// the unrelated user's session keeps working
@@ -377,7 +421,7 @@ func propHostile(c HostileCase) (o pbt.Outcome) {
 		o.Failf(sig, "after %d authenticated hostile segments of another user, an unrelated user's session is broken: %s", len(c.Segs), msg)
 		return
 	}
-	o.NonTrivial = reached > 0
+	o.NonTrivial = reached > 0 || c.CutLast > 0 || c.Flood > 0
 	o.Label("udp=%v", c.UDP)
 	o.Label("against=server")
 	o.Label("victimTargeted=%v", victimTargeted)
